@@ -753,8 +753,15 @@ class ManifestRecursiveLoader:
 
         fixed_manifests = set()
         renamed_manifests = {}
-        for mpath, relpath, m in self._iter_manifests_for_path(
-                '', recursive=True):
+        # NB: a Manifest can reference another Manifest of the same
+        # directory (e.g. Manifest -> Manifest.files.gz); the referenced one
+        # is always loaded after its referrer, so process same-directory
+        # Manifests in reverse load order to write it first
+        for mpath, relpath, m in sorted(
+                reversed(list(self._iter_unordered_manifests_for_path(
+                    '', recursive=True))),
+                key=lambda kdv: len(kdv[1]),
+                reverse=True):
             for e in m.entries:
                 if e.tag != 'MANIFEST':
                     continue
